@@ -78,7 +78,7 @@ func execCase(c core.Case) []string {
 			if err != nil {
 				panic(err)
 			}
-			p = newPCase(cd, false)
+			p = newPCase(cd, false, -1)
 		}
 		return p
 	}
@@ -121,7 +121,16 @@ func execCase(c core.Case) []string {
 				}
 				discard = s == "1"
 			}
-			p = newPCase(cd, discard)
+			retainK := -1
+			if s, has := a["retain"]; has {
+				v, okr := natTok(s)
+				if !okr || v > 100 {
+					out = append(out, "bad-op")
+					break
+				}
+				retainK = v
+			}
+			p = newPCase(cd, discard, retainK)
 			if m != nil {
 				m.close()
 				m = nil
@@ -199,7 +208,7 @@ func execCase(c core.Case) []string {
 			if !hasConn {
 				conn = "sync"
 			}
-			if !ok || (a["ver"] != "v0" && a["ver"] != "v1") || !(conn == "sync" || (conn == "async" && a["ver"] == "v0")) {
+			if !ok || (a["ver"] != "v0" && a["ver"] != "v1") || !(conn == "sync" || conn == "async") {
 				out = append(out, "bad-op")
 				break
 			}
@@ -514,6 +523,9 @@ func oracle(c core.Case, out []string) []core.Finding {
 				} else if t["sc"] != "1" && !hostile {
 					add("handshake.recovered-state-not-canonical", "the state saved by recovery differs from the state of an uninterrupted run: "+o)
 				}
+			} else if oc == "err-app-too-low" && !hostile && tooLowRule(t, oih) {
+				// the application was restored from a snapshot older than the block store's base - 1:
+				// refusing to start is what the node must do
 			} else if oc != "crashed" && !hostile {
 				add("handshake.fails-on-crash-state."+oc, "the handshake does not complete on a state reached by crashes only: "+o)
 			}
@@ -625,6 +637,13 @@ func oracle(c core.Case, out []string) []core.Finding {
 		}
 	}
 	return fs
+}
+
+// ReplayBlocks' own rule for refusing an application that is below the (pruned) block store
+func tooLowRule(t map[string]string, ih int64) bool {
+	app, _ := strconv.ParseInt(t["app"], 10, 64)
+	base, _ := strconv.ParseInt(t["base"], 10, 64)
+	return (app == 0 && ih < base) || (app > 0 && app < base-1)
 }
 
 func journalFingerprint(bad string) string {
@@ -762,6 +781,29 @@ func gen(r *rand.Rand, tier string, emit func(core.Case)) {
 		ops = append(ops, "start crash=-", "commit crash=-", "check")
 		emit(core.Case{Kind: "pipe-rollback", Ops: ops})
 	}
+	// (a1-pr) pruning from the application's RetainHeight: crashes around PruneBlocks / PruneStates,
+	// restores of the application relative to the pruned base (refused / replayed / the base-1 panic)
+	for i := 0; i < 150*scale; i++ {
+		n := 3 + r.Intn(3)
+		bs := make([]string, n)
+		for j := range bs {
+			bs[j] = []string{"e", "1", "2.3", "9", "4.8"}[r.Intn(5)] // no validator-set changes (model: valLHC = InitialHeight)
+		}
+		ihs := []string{"", "", " ih=4"}[r.Intn(3)]
+		ops := []string{fmt.Sprintf("chain n=%d txs=%s retain=%d%s", n, strings.Join(bs, ","), r.Intn(4), ihs), "start crash=-"}
+		for h := 0; h < n; h++ {
+			switch r.Intn(6) {
+			case 0:
+				ops = append(ops, "commit "+crashTok(r, 14)+midTok(r), "start crash=-")
+			case 1:
+				ops = append(ops, "commit crash=-", fmt.Sprintf("rollback n=%d", 1+r.Intn(3)), "start "+crashTok(r, 8), "start crash=-")
+			default:
+				ops = append(ops, "commit crash=-")
+			}
+		}
+		ops = append(ops, "start crash=-", "commit crash=-", "check")
+		emit(core.Case{Kind: "pipe-prune", Ops: ops})
+	}
 	// (a2) random walks: crashes anywhere, repeated crashes while recovering, crashes at genesis
 	for i := 0; i < 600*scale; i++ {
 		n := r.Intn(5)
@@ -826,7 +868,7 @@ func gen(r *rand.Rand, tier string, emit func(core.Case)) {
 	}
 	// (c) mempool interleavings
 	for i := 0; i < 120*scale; i++ {
-		ver := []string{"v0", "v1", "v0 conn=async"}[r.Intn(3)]
+		ver := []string{"v0", "v1", "v0 conn=async", "v1 conn=async"}[r.Intn(4)]
 		pool := r.Intn(3)
 		ops := []string{fmt.Sprintf("mp ver=%s pool=%d", ver, pool)}
 		ver = strings.ReplaceAll(ver, " conn=", "-")
@@ -840,9 +882,15 @@ func gen(r *rand.Rand, tier string, emit func(core.Case)) {
 		// queued when it is released is a scheduler race; at most one check is submitted once a
 		// commit may hold the lock
 		commits, lateChecks := 0, 0
+		relCheckSeen := false
 		for j := 0; j < l; j++ {
 			switch x := r.Intn(10); {
-			case x < 2 && nextCheck <= 3 && !(strings.HasSuffix(ver, "async") && commits > 0 && lateChecks > 0):
+			case x < 2 && nextCheck <= 3 && !(strings.HasSuffix(ver, "async") && commits > 0 && lateChecks > 0) &&
+				// v1 over the asynchronous connection: a check blocked on the lock would race with the
+				// recheck goroutines at unlock; checks are submitted before any commit or right after the
+				// first spawncommit (the committer is then waiting in FlushSync with the lock released)
+				// — which needs an unanswered request in front of the flush)
+				!(ver == "v1-async" && commits > 0 && !(commits == 1 && ops[len(ops)-1] == "spawncommit" && nextCheck > 1 && !relCheckSeen)):
 				ops = append(ops, fmt.Sprintf("spawncheck i=%d", ids[nextCheck-1]))
 				nextCheck++
 				if commits > 0 {
@@ -852,10 +900,22 @@ func gen(r *rand.Rand, tier string, emit func(core.Case)) {
 				commits++
 				ops = append(ops, "spawncommit")
 			default:
-				ops = append(ops, "rel what="+names[r.Intn(len(names))])
+				w := names[r.Intn(len(names))]
+				if strings.HasPrefix(w, "check:") {
+					relCheckSeen = true
+				}
+				ops = append(ops, "rel what="+w)
 			}
 		}
 		emit(core.Case{Kind: "mp-random-" + ver, Ops: ops})
+	}
+	// asynchronous connection, v1: a check queued before the flush is answered before the commit is
+	// requested; one queued while the committer waits in FlushSync (lock released) is in flight at commit
+	for pool := 0; pool <= 2; pool++ {
+		ops := []string{fmt.Sprintf("mp ver=v1 pool=%d conn=async", pool), "spawncheck i=1", "spawncommit", "spawncheck i=2",
+			"rel what=commit", "rel what=check:1", "rel what=check:2", "rel what=commit", "rel what=recheck:0", "spawncheck i=3",
+			"rel what=recheck:1", "rel what=recheck:2", "rel what=recheck:3", "rel what=check:3", "spawncommit", "rel what=commit"}
+		emit(core.Case{Kind: "mp-scripted-v1-async", Ops: ops})
 	}
 	// asynchronous connection, v0: checks (accepted and rejected) unanswered when the commit starts,
 	// with an empty and a non-empty pool; checks submitted while rechecks are unanswered
